@@ -189,6 +189,7 @@ def run(pid, tier, replay=None):
     v = vlib.Verdict(pid, tier)
     rnd = random.Random(vlib.seed() * 7919 + int(pid[1:]))
     binary = vlib.build_harness()
+    langrun.learn_diag_mark(binary)
     binaries = [("enum", binary)]
     if pid == "C14":
         binaries.append(("nan_boxing", vlib.build_harness(nan_boxing=True)))
